@@ -24,6 +24,10 @@ func hostilePool() []*dg.UserType {
 		{Name: "UObj", Base: dg.Obj(dg.F("a", dg.Prim("String")), dg.F("b", dg.Prim("Int")))},
 		{Name: "AStr", Base: dg.Prim("String")},
 		{Name: "AInt", Base: dg.Prim("Int")},
+		{Name: "UMap", Base: dg.Obj(dg.F("m", dg.MapOf(dg.A(dg.Prim("String")), dg.A(dg.Prim("Int")))), dg.F("l", dg.ArrayOf(dg.A(dg.MapOf(dg.A(dg.Prim("String")), dg.A(dg.Prim("String")))))))},
+		{Name: "UTag", Base: dg.Obj(dg.Req("treq", dg.Prim("String")), dg.F("topt", dg.Prim("String")), dg.F("tdef", dg.Prim("String")).Def("dv"), dg.F("n", dg.Prim("Int")))},
+		{Name: "RTag", Result: true, Base: dg.Obj(dg.Req("treq", dg.Prim("String")), dg.F("topt", dg.Prim("String")), dg.F("tdef", dg.Prim("String")).Def("dv"), dg.F("n", dg.Prim("Int"))),
+			Views: []dg.View{{Name: "default", Attrs: []dg.ViewField{{Name: "treq"}, {Name: "topt"}, {Name: "tdef"}, {Name: "n"}}}, {Name: "tiny", Attrs: []dg.ViewField{{Name: "treq"}, {Name: "tdef"}}}}},
 		{Name: "RT", Result: true, Base: dg.Obj(dg.Req("r1", dg.Prim("String")), dg.F("r2", dg.Prim("Int"))),
 			Views: []dg.View{{Name: "default", Attrs: []dg.ViewField{{Name: "r1"}, {Name: "r2"}}}, {Name: "tiny", Attrs: []dg.ViewField{{Name: "r1"}}}}},
 	}
@@ -275,6 +279,199 @@ func degenerateMethod(idx int, t dg.Type, v dg.Validation, where string) *dg.Met
 	return m
 }
 
+// ---- requiredness x default product: every place where generated code reads or writes an
+// attribute depends on whether the field is a pointer (required / optional / optional with
+// default / required with default), per type ----
+
+var ptrModes = []string{"req", "opt", "def", "reqdef"}
+var ptrLocations = []string{"path", "query", "header", "cookie", "body", "resp_header", "resp_cookie", "resp_body", "err_header", "err_body", "p_query_validated"}
+
+func ptrMethod(idx int, loc, mode string, ht hType) *dg.Method {
+	f := &dg.Field{Name: "x", A: dg.Attr{T: ht.t}}
+	if mode == "req" || mode == "reqdef" {
+		f.Required = true
+	}
+	if mode == "def" || mode == "reqdef" {
+		f.A.Default, f.A.HasDef = ht.sample, true
+	}
+	other := dg.F("other", dg.Prim("String"))
+	m := &dg.Method{Name: fmt.Sprintf("m%d", idx)}
+	path := fmt.Sprintf("/h%d", idx)
+	h := &dg.HTTPMap{}
+	verb := "GET"
+	switch loc {
+	case "path":
+		m.Payload = pa(dg.A(dg.Obj(f, other)))
+		path += "/{x}"
+	case "query":
+		m.Payload = pa(dg.A(dg.Obj(f, other)))
+		h.Params = []dg.MapEntry{{Attr: "x"}}
+	case "header":
+		m.Payload = pa(dg.A(dg.Obj(f, other)))
+		h.Headers = []dg.MapEntry{{Attr: "x", Wire: "X-H"}}
+	case "cookie":
+		m.Payload = pa(dg.A(dg.Obj(f, other)))
+		h.Cookies = []dg.MapEntry{{Attr: "x", Wire: "ck"}}
+	case "body":
+		m.Payload = pa(dg.A(dg.Obj(f, other)))
+		verb = "POST"
+	case "resp_header":
+		m.Result = pa(dg.A(dg.Obj(f, other)))
+		h.Responses = []dg.Response{{Status: 200, Headers: []dg.MapEntry{{Attr: "x", Wire: "X-H"}}}}
+	case "resp_cookie":
+		m.Result = pa(dg.A(dg.Obj(f, other)))
+		h.Responses = []dg.Response{{Status: 200, Cookies: []dg.MapEntry{{Attr: "x", Wire: "ck"}}}}
+	case "resp_body":
+		m.Result = pa(dg.A(dg.Obj(f, other)))
+	case "err_header", "err_body":
+		et := dg.Obj(dg.Req("name", dg.Prim("String")), f)
+		en := fmt.Sprintf("bad%d", idx)
+		m.Errors = []dg.ErrorDef{{Name: en, T: &et}}
+		er := dg.ErrResponse{Name: en, R: dg.Response{Status: 400}}
+		if loc == "err_header" {
+			er.R.Headers = []dg.MapEntry{{Attr: "x", Wire: "X-E"}}
+		}
+		h.Errors = []dg.ErrResponse{er}
+	case "p_query_validated":
+		// the attribute itself is the payload
+		a := dg.A(ht.t)
+		if f.A.HasDef {
+			a.Default, a.HasDef = f.A.Default, true
+		}
+		m.Payload = &a
+		h.Params = []dg.MapEntry{{Attr: "pq"}}
+	}
+	h.Routes = []dg.Route{{Verb: verb, Path: path}}
+	m.HTTP = h
+	return m
+}
+
+// tagMethods: Tag on a required / optional / defaulted String attribute of an inline object, a
+// user type, a result type (viewed) and a result type with a fixed view; one or two tagged responses.
+func tagMethods(start int) (ms []*dg.Method, names []string) {
+	idx := start
+	inline := func() dg.Type {
+		return dg.Obj(dg.Req("treq", dg.Prim("String")), dg.F("topt", dg.Prim("String")), dg.F("tdef", dg.Prim("String")).Def("dv"), dg.F("n", dg.Prim("Int")))
+	}
+	for _, holder := range []string{"inline", "user", "result", "result_fixed_view"} {
+		for _, tag := range []string{"treq", "topt", "tdef"} {
+			for _, extra := range []string{"plain", "with_header", "two_tags"} {
+				m := &dg.Method{Name: fmt.Sprintf("m%d", idx)}
+				switch holder {
+				case "inline":
+					m.Result = pa(dg.A(inline()))
+				case "user":
+					m.Result = pa(dg.A(dg.Ref("UTag")))
+				case "result":
+					m.Result = pa(dg.A(dg.Ref("RTag")))
+				case "result_fixed_view":
+					m.Result = pa(dg.A(dg.Ref("RTag")))
+					m.ResultView = "tiny"
+					if tag == "topt" {
+						continue // not part of the view
+					}
+				}
+				tagged := dg.Response{Status: 202, Tag: []string{tag, "acc"}}
+				rs := []dg.Response{tagged}
+				switch extra {
+				case "with_header":
+					rs[0].Headers = []dg.MapEntry{{Attr: "n", Wire: "X-N"}}
+					if holder == "result_fixed_view" {
+						continue
+					}
+				case "two_tags":
+					rs = append(rs, dg.Response{Status: 201, Tag: []string{"treq", "new"}})
+				}
+				rs = append(rs, dg.Response{Status: 200})
+				m.HTTP = &dg.HTTPMap{Routes: []dg.Route{{Verb: "GET", Path: fmt.Sprintf("/h%d", idx)}}, Responses: rs}
+				ms = append(ms, m)
+				names = append(names, fmt.Sprintf("tagp_%s_%s_%s", holder, tag, extra))
+				idx++
+			}
+		}
+	}
+	return
+}
+
+// ---- nested collection shapes: every sequence of array / map constructors up to depth 4 over
+// each leaf (loop variables of nested transforms, validations and conversions are allocated by depth) ----
+
+func nestedShapes() []hType {
+	leaves := []hType{{"string", dg.Prim("String"), nil}, {"int", dg.Prim("Int"), nil}, {"uobj", dg.Ref("UObj"), nil}, {"umap", dg.Ref("UMap"), nil}}
+	var out []hType
+	for _, lf := range leaves {
+		var build func(seq string) dg.Type
+		build = func(seq string) dg.Type {
+			if seq == "" {
+				return lf.t
+			}
+			inner := dg.A(build(seq[1:]))
+			if seq[0] == 'a' {
+				return dg.ArrayOf(inner)
+			}
+			return dg.MapOf(dg.A(dg.Prim("String")), inner)
+		}
+		for n := 2; n <= 4; n++ {
+			for bits := 0; bits < 1<<n; bits++ {
+				seq := ""
+				for k := 0; k < n; k++ {
+					if bits&(1<<k) != 0 {
+						seq += "m"
+					} else {
+						seq += "a"
+					}
+				}
+				if n == 4 && (lf.name == "int" || lf.name == "umap") {
+					continue // depth 4 over two leaves is enough
+				}
+				out = append(out, hType{"shape_" + seq + "_" + lf.name, build(seq), nil})
+			}
+		}
+	}
+	return out
+}
+
+func shapeMethod(idx int, ht hType, where string) *dg.Method {
+	m := &dg.Method{Name: fmt.Sprintf("m%d", idx)}
+	h := &dg.HTTPMap{Routes: []dg.Route{{Verb: "POST", Path: fmt.Sprintf("/h%d", idx)}}}
+	switch where {
+	case "attr": // attribute of payload and result objects
+		m.Payload = pa(dg.A(dg.Obj(&dg.Field{Name: "x", A: dg.Attr{T: ht.t}}, dg.F("other", dg.Prim("String")))))
+		m.Result = pa(dg.A(dg.Obj(&dg.Field{Name: "x", A: dg.Attr{T: ht.t}, Required: true})))
+	case "whole": // the payload / result itself
+		m.Payload = pa(dg.A(ht.t))
+		m.Result = pa(dg.A(ht.t))
+	}
+	m.HTTP = h
+	return m
+}
+
+// ---- route sets: pairs of routes over relative / absolute paths, parameters, wildcards, with and
+// without parameters in the service base path ----
+
+var routeShapes = []string{"/a/{x}", "/b/{x}/{y}", "/c/{y}", "/d", "/e/{*y}", "/f/{x}/{*y}", "//abs/{x}", "//abs2/{x}/{y}", "//abs3", "//abs4/{*y}", "//abs5/{y}"}
+
+func routeMethod(idx int, r1, r2 string, third bool) *dg.Method {
+	m := &dg.Method{Name: fmt.Sprintf("m%d", idx),
+		Payload: pa(dg.A(dg.Obj(dg.Req("x", dg.Prim("String")), dg.Req("y", dg.Prim("String")), dg.Req("z", dg.Prim("Int")), dg.F("q", dg.Prim("String")))))}
+	pfx := func(p string) string {
+		if strings.HasPrefix(p, "//") {
+			return "//r" + fmt.Sprint(idx) + p[1:]
+		}
+		return fmt.Sprintf("/r%d", idx) + p
+	}
+	rs := []dg.Route{{Verb: "GET", Path: pfx(r1)}, {Verb: "GET", Path: pfx(r2) + "/two"}}
+	if strings.Contains(r2, "{*") {
+		rs[1].Path = pfx(r2)
+		rs[1].Verb = "POST"
+	}
+	if third {
+		rs = append(rs, dg.Route{Verb: "DELETE", Path: pfx(r1)})
+	}
+	m.HTTP = &dg.HTTPMap{Routes: rs, Params: []dg.MapEntry{{Attr: "q"}}}
+	return m
+}
+
 var hostileSchemes = []dg.Scheme{{Kind: "basic", Name: "basic_sch"}, {Kind: "apikey", Name: "key_sch"},
 	{Kind: "jwt", Name: "jwt_sch", Scopes: []string{"api:read"}}, {Kind: "oauth2", Name: "oauth_sch", Scopes: []string{"api:read"}}}
 
@@ -328,6 +525,11 @@ func credentialMethods(start int) (ms []*dg.Method, names []string) {
 		}
 	}
 	return
+}
+
+func routeName(p string) string {
+	r := strings.NewReplacer("//", "abs_", "/", "_", "{*", "W", "{", "P", "}", "")
+	return strings.Trim(r.Replace(p), "_")
 }
 
 func hostileSingle(name string, m *dg.Method) DCase {
@@ -394,6 +596,52 @@ func hostileDesigns() []DCase {
 		out = append(out, hostileSingle("h_"+tc.name, m))
 		idx++
 	}
+	// requiredness x default product
+	ptrTypes := []hType{}
+	for _, ht := range hostileTypes() {
+		switch ht.name {
+		case "string", "int", "uint32", "float64", "boolean", "int64", "bytes", "astr":
+			ptrTypes = append(ptrTypes, ht)
+		}
+	}
+	for _, loc := range ptrLocations {
+		for _, mode := range ptrModes {
+			for _, ht := range ptrTypes {
+				if mode == "opt" && loc != "resp_body" && loc != "err_body" && loc != "p_query_validated" {
+					continue // the type x location product above already uses an optional attribute without default
+				}
+				out = append(out, hostileSingle("h_ptr_"+loc+"_"+mode+"_"+ht.name, ptrMethod(idx, loc, mode, ht)))
+				idx++
+			}
+		}
+	}
+	tms, tnames := tagMethods(idx)
+	for i, m := range tms {
+		out = append(out, hostileSingle("h_"+tnames[i], m))
+	}
+	idx += len(tms)
+	// nested collection shapes
+	for _, ht := range nestedShapes() {
+		for _, where := range []string{"attr", "whole"} {
+			out = append(out, hostileSingle("h_"+ht.name+"_"+where, shapeMethod(idx, ht, where)))
+			idx++
+		}
+	}
+	// route sets
+	for _, r1 := range routeShapes {
+		for _, r2 := range routeShapes {
+			out = append(out, hostileSingle("h_routes_"+routeName(r1)+"__"+routeName(r2), routeMethod(idx, r1, r2, false)))
+			idx++
+		}
+	}
+	for _, r1 := range routeShapes {
+		for _, r2 := range routeShapes {
+			c := hostileSingle("h_routesb_"+routeName(r1)+"__"+routeName(r2), routeMethod(idx, r1, r2, true))
+			c.Design.Services[0].BasePath = "/sb/{z}"
+			out = append(out, c)
+			idx++
+		}
+	}
 	ms, names := credentialMethods(idx)
 	for i, m := range ms {
 		out = append(out, hostileSingle("h_"+names[i], m))
@@ -415,7 +663,8 @@ func packHostile(singles []DCase, size int) []DCase {
 		var svcs []*dg.Service
 		var names []string
 		for k, c := range singles[lo:hi] {
-			svcs = append(svcs, &dg.Service{Name: fmt.Sprintf("svc%d", k), Methods: c.Design.Services[0].Methods})
+			src := c.Design.Services[0]
+			svcs = append(svcs, &dg.Service{Name: fmt.Sprintf("svc%d", k), BasePath: src.BasePath, Methods: src.Methods})
 			names = append(names, strings.TrimPrefix(c.Name, "h_"))
 		}
 		d := &dg.Design{Name: fmt.Sprintf("hpack%d", len(out)), Types: hostilePool(), Schemes: append([]dg.Scheme{}, hostileSchemes...), Services: svcs}
